@@ -41,6 +41,7 @@ Sixth round: C19.3 the id the listing decodes from a DN is built like the id of 
 Seventh round: C19.2 Admin.get lets 'no such object' escape (the API turns exactly that into a zero-capacity partition); C19.3 the reservation being replaced is excluded in both accountings, overall and per trait.
 Eighth round: C19.3 the assignment operations write only the `assignments` attribute of the shared cell-allocation record.
 Ninth round: C19.1 CellAllocation.from_entry gives cpu, memory and disk each its default under the test that that key is missing; C19.5 cpu_units tests the percent suffix on the stripped value. C19.3 the record handed to _check_capacity is the record handed to the admin write of the same operation (F23: the update checked the bare request and wrote the merge; repaired in /repo).
+Tenth round: C19.3 the listing both accountings walk is a collection (not a one-shot iterator), and the exclusion of the replaced reservation may be made once by the caller on that listing; C19.5 the row of a trait may be looked up once and the applicable limits selected by a loop that appends.
 Does NOT decide the sums over arbitrary reservation sets (arithmetic).
 """
 
